@@ -42,7 +42,7 @@ LEVEL_TEXT = ('Kernel-checked: every coupled step of useractions (AddColumn, Rem
 LEVEL_NOTE = ('Kernel strength: useractions phases before the coupled step (formula renames, summary bookkeeping) are '
               'environment; their outputs (the update pairs) are taken from the run and checked against cop_pre. '
               'Direct record actions on the two metadata tables break the property on the unchanged tree (known findings).')
-DISABLED = True
+
 
 FIELDS = ('parentId', 'parentPos', 'colId', 'type', 'isFormula', 'formula', 'reverseCol')
 TIE_FIELDS = ('parentId', 'colId', 'type', 'isFormula', 'formula', 'reverseCol')
